@@ -32,6 +32,9 @@ fn text(rng: &mut Rng, tag: &str) -> String {
 enum Op {
     TabWidth(usize),
     Style(usize),
+    /// `set_style(pb.style().template(..))`: the bar's current style (which carries the bar's tab width)
+    /// gets a new template and is installed again
+    Restyle(usize),
     Msg(String),
     Prefix(String),
 }
@@ -131,9 +134,10 @@ fn run_case(seed: u64, idx: u64) -> CaseOut {
         let n = rng.range(1, 6);
         let mut ops = Vec::new();
         for _ in 0..n {
-            ops.push(match rng.below(4) {
+            ops.push(match rng.below(5) {
                 0 => Op::TabWidth(*rng.pick(&WIDTHS)),
                 1 => Op::Style(rng.usize(TEMPLATES.len())),
+                4 => Op::Restyle(rng.usize(TEMPLATES.len())),
                 2 => Op::Msg(text(&mut rng, "m")),
                 _ => Op::Prefix(text(&mut rng, "p")),
             });
@@ -168,6 +172,10 @@ fn run_case(seed: u64, idx: u64) -> CaseOut {
                 Op::Style(t) => {
                     tmpl = t;
                     pb.set_style(style_for(t));
+                }
+                Op::Restyle(t) => {
+                    tmpl = t;
+                    pb.set_style(pb.style().template(TEMPLATES[t]).unwrap());
                 }
                 Op::Msg(m) => {
                     msg = m.clone();
@@ -383,7 +391,7 @@ pub fn run(cfg: &RunCfg) -> PropResult {
     };
     PropResult {
         report,
-        rule: "each evaluation: with_tab_width / with_style / with_message / with_prefix applied in a random order at construction, then 1-6 of set_tab_width / set_style / set_message / set_prefix and a finish_with_message or a drop-style finish with WithMessage; tab widths {0,1,2,8,13}; texts with 0-10 tabs (leading, trailing, consecutive); tabs in template literals and in custom-key output; standalone and inside a MultiProgress; after every operation every write_str/write_line argument is scanned for TAB, the forced frame is compared with the model expansion and message()/prefix() with the expanded text; non-trivial = at least one text of the history contains a tab; concurrent lane: set_message/set_prefix/finish_with_message with a text whose Into<Cow<str>> conversion lets a second thread run set_tab_width inside the call, final texts and frame compared with the expansion at the new width".into(),
+        rule: "each evaluation: with_tab_width / with_style / with_message / with_prefix applied in a random order at construction, then 1-6 of set_tab_width / set_style (fresh style, or the bar's own style() with a new template) / set_message / set_prefix and a finish_with_message or a drop-style finish with WithMessage; tab widths {0,1,2,8,13}; texts with 0-10 tabs (leading, trailing, consecutive); tabs in template literals and in custom-key output; standalone and inside a MultiProgress; after every operation every write_str/write_line argument is scanned for TAB, the forced frame is compared with the model expansion and message()/prefix() with the expanded text; non-trivial = at least one text of the history contains a tab; concurrent lane: set_message/set_prefix/finish_with_message with a text whose Into<Cow<str>> conversion lets a second thread run set_tab_width inside the call, final texts and frame compared with the expansion at the new width".into(),
         exhaustive: false,
     }
 }
